@@ -42,7 +42,7 @@ func ruleHandoff(r *Report) {
 			var readV, writeV ssa.Value
 			for _, rf := range *al.Referrers() {
 				if fa, ok := rf.(*ssa.FieldAddr); ok {
-					name := derefStruct(al.Type()).Field(fa.Field).Name()
+					name := refField(al.Type(), fa.Field)
 					for _, rr := range *fa.Referrers() {
 						if st, ok := rr.(*ssa.Store); ok {
 							if name == "readStore" {
